@@ -866,6 +866,12 @@ class Engine:
         for name, rx, fn in self.MODELS:
             if rx.search(callee):
                 return ("model", (name, fn))
+        # same callee with std module paths trimmed (`std::string::String` -> `String`), as rustc prints it in other crates
+        short = re.sub(r"\b(?:std|core|alloc)::(?:[a-z_0-9]+::)+(?=[A-Z])", "", callee)
+        if short != callee:
+            for name, rx, fn in self.MODELS:
+                if rx.search(short):
+                    return ("model", (name, lambda e, c, a, _fn=fn, _s=short: _fn(e, _s, a)))
         raise Unsupported("no model for callee: " + callee)
 
     def call_closure(self, clo, args):
